@@ -360,6 +360,31 @@ pub fn run(ctx: &mut Ctx) {
                 Err(p) => ctx.violation(&format!("type/panic/{}", p.signature()), &format!("{:?}", p), jhex(&te)),
             }
         }
+        // the added known-value types with their OBJECT obscured afterwards (same digest): still reported by all four
+        // checks
+        for v in &kv_types {
+            let kvv = KnownValue::new(*v);
+            let obj = Envelope::new(kvv.clone());
+            // (only when that digest occurs nowhere but as a type object: obscuring works per digest)
+            let occurrences = tt.flatten().iter().filter(|(_, n)| n.digest == d32(&obj)).count();
+            let as_type_object = tt.children.iter().skip(1).filter(|a| { let s = if a.kind == crate::spec::Kind::Node { &a.children[0] } else { *a }; s.kind == crate::spec::Kind::Assertion && s.children[0].digest == isa_digest && s.children[1].digest == d32(&obj) }).count();
+            if occurrences != as_type_object || as_type_object == 0 {
+                continue;
+            }
+            for form in ["elided", "compressed"] {
+                let te2 = if form == "elided" { te.elide_removing_target(&obj) } else { te.elide_removing_set_with_action(&crate::gen::digest_set(&[d32(&obj)]), &ObscureAction::Compress) };
+                ctx.eval();
+                ctx.count("type_object_obscured_checks");
+                match trap::guard(|| (te2.has_type(&kvv), te2.check_type(&kvv).is_ok(), te2.has_type_envelope(kvv.clone()), te2.check_type_envelope(kvv.clone()).is_ok())) {
+                    Ok((a, b, c, d)) => {
+                        if !(a && b && c && d) {
+                            ctx.violation("type/missing-after-obscuring-type-object", &format!("known-value type {} with its type object {}: has_type={} check_type={} has_type_envelope={} check_type_envelope={}", v, form, a, b, c, d), jhex(&te2));
+                        }
+                    }
+                    Err(p) => ctx.violation(&format!("type/panic/{}", p.signature()), &format!("{:?}", p), jhex(&te2)),
+                }
+            }
+        }
         for i in 0..6 {
             let t = Envelope::new(format!("Type{}", i));
             let want = type_digests.contains(&d32(&t));
